@@ -219,6 +219,19 @@ def specParents (a : Abs) (i : Id) : List Id := (specIndFamilies a i).filter (fu
 def specChildren (a : Abs) (i : Id) : List Id :=
   ((specIndFamilies a i).filter (fun f => !specHasChild a f i)).flatMap (specFamChildren a)
 
+/-- the tags `Tag.IsEvent()` answers true for: regenerated from the tag table of the linked library
+    (`Generated.cacheEventTags`, written by harness/extract_cache.go) -/
+def eventTags : List Str := Generated.cacheEventTags
+
+def isEventTag (t : Str) : Bool := eventTags.contains t
+
+/-- `IndividualNode.AllEvents()`: the children whose tag is an event tag (not cached) -/
+def specAllEvents (a : Abs) (i : Id) : List Id := (a.kids i).filter (fun c => isEventTag (a.tag c))
+
+/-- the event accessors that are a children-by-tag lookup: `Births()`, `Baptisms()`, `Deaths()`,
+    `Burials()` -/
+def eventAccessorTags : List Str := [tBIRT, tBAPM, tDEAT, tBURI]
+
 /-! ## concrete state -/
 
 structure St where
@@ -310,6 +323,15 @@ def wife (f : Id) : M (Option Id) := fun s =>
 
 /-- `FamilyNode.Children()` -/
 def famChildren (f : Id) : M (List Id) := nwt f tCHIL
+
+/-- `IndividualNode.Names()`: the NAME children, through the children-by-tag cache -/
+def names (i : Id) : M (List Id) := nwt i tNAME
+
+/-- `IndividualNode.Births()` / `Baptisms()` / `Deaths()` / `Burials()` -/
+def eventsOf (i : Id) (t : Str) : M (List Id) := nwt i t
+
+/-- `IndividualNode.AllEvents()` walks `node.Nodes()`; no cache is read or written -/
+def allEvents (i : Id) : M (List Id) := M.ofAbs fun a => specAllEvents a i
 
 /-- `HusbandNode.Individual()` and friends: pointer lookup, then the comma-ok type assertion -/
 def individualOf (h : Id) : M (Option Id) :=
@@ -694,12 +716,20 @@ inductive View
   | husband (f : Id)
   | wife (f : Id)
   | famChildren (f : Id)
+  /-- `i.Names()` -/
+  | names (i : Id)
+  /-- `i.Births()` (tag BIRT), `Baptisms()` (BAPM), `Deaths()` (DEAT), `Burials()` (BURI) -/
+  | eventsOf (i : Id) (t : Str)
+  /-- `i.AllEvents()` -/
+  | allEvents (i : Id)
 deriving Repr
 
 inductive Op
   /-- `n.AddNode(NewNode(tag, value, ptr))`, tag not INDI/FAM/HUSB/WIFE/CHIL -/
   | addNode (n : Id) (tag value ptr : Str)
   | deleteNode (n c : Id)
+  /-- `DeleteNodesWithTag(n, t)` (nodes.go) -/
+  | deleteNodesWithTag (n : Id) (t : Str)
   /-- `n.SetNodes(ks)`, `ks` drawn from the current children -/
   | setNodes (n : Id) (ks : List Id)
   /-- `doc.AddNode(NewNode(tag, value, ptr))`, same tag restriction, pointer not used by an individual -/
@@ -768,6 +798,9 @@ def runView (v : View) : M Obs :=
   | .husband f => M.bind (husband f) fun r => M.pure (.ids [r])
   | .wife f => M.bind (wife f) fun r => M.pure (.ids [r])
   | .famChildren f => M.bind (famChildren f) fun l => M.pure (.ids (l.map some))
+  | .names i => M.bind (names i) fun l => M.pure (.ids (l.map some))
+  | .eventsOf i t => M.bind (eventsOf i t) fun l => M.pure (.ids (l.map some))
+  | .allEvents i => M.bind (allEvents i) fun l => M.pure (.ids (l.map some))
 
 /-- the same view on a document without caches -/
 def specView (a : Abs) : View → Obs
@@ -782,6 +815,9 @@ def specView (a : Abs) : View → Obs
   | .husband f => .ids [specHusband a f]
   | .wife f => .ids [specWife a f]
   | .famChildren f => .ids ((specFamChildren a f).map some)
+  | .names i => .ids ((specNWT a i tNAME).map some)
+  | .eventsOf i t => .ids ((specNWT a i t).map some)
+  | .allEvents i => .ids ((specAllEvents a i).map some)
 
 /-- the receiver of the view has the Go type the method is defined on -/
 def View.ok (a : Abs) : View → Bool
@@ -789,11 +825,14 @@ def View.ok (a : Abs) : View → Bool
   | .individuals | .families | .byPointer _ => true
   | .indFamilies i | .spouses i | .parents i | .children i => isIndi a i
   | .husband f | .wife f | .famChildren f => isFam a f
+  | .names i | .allEvents i => isIndi a i
+  | .eventsOf i t => isIndi a i && eventAccessorTags.contains t
 
 /-- the arguments are ones the public API accepts and the model covers -/
 def Op.ok (a : Abs) : Op → Bool
   | .addNode n t _ _ => n < a.heap.length && plainTag t
   | .deleteNode n _ => n < a.heap.length
+  | .deleteNodesWithTag n _ => n < a.heap.length
   | .setNodes n ks => n < a.heap.length && ks.all (fun k => (a.kids n).contains k)
   | .docAddNode t _ p => plainTag t && ptrFreeOfIndi a p
   | .addIndividual _ => true
@@ -821,6 +860,7 @@ def setOrClear (fl : Flags) (isHusb : Bool) (f : Id) (i : Option Id) (s : St) : 
 def exec (fl : Flags) (s : St) : Op → St × Obs
   | .addNode n t v p => (addFresh fl n ⟨t, v, p, [], 0⟩ s, .none)
   | .deleteNode n c => (deleteKid fl n c s, .none)
+  | .deleteNodesWithTag n t => (deleteKidsWithTag fl n t s, .none)
   | .setNodes n ks => (setKidsOp fl n ks s, .none)
   | .docAddNode t v p => (docAppend fl ⟨t, v, p, [], 0⟩ s, .none)
   | .addIndividual p => (addIndividual fl p s, .none)
@@ -853,6 +893,39 @@ def run (fl : Flags) (s : St) : List Op → St × List Obs
     let rs := run fl r.1 os
     (rs.1, r.2 :: rs.2)
 
+/-! ## whole subtrees: `NewNode(tag, value, ptr, children…)` handed to `AddNode` / `AddIndividual`
+
+  The constructor builds the subtree without touching any cache; one `AddNode` then attaches it.  The
+  model runs this as the history of single-node `AddNode`s in preorder (the parent first, then each
+  child below the id its parent has just been given).  For `n.AddNode(subtree)` this is the same
+  state: the first step does everything `AddNode` does to `n`, the later ones only repeat the
+  node-cache reset on nodes no cache mentions.  For `doc.AddNode(subtree)` and
+  `doc.AddIndividual(ptr, children…)` the document is the same and the node cache of the model is
+  emptier than the real one (the code does not reset it there), which no view can observe
+  (`coherent_run`). -/
+
+mutual
+/-- `base` = the id the root of the subtree gets (the heap length when the history starts) -/
+def addTreeOps (n : Id) (base : Nat) : Node → List Op
+  | .mk t v p ks => Op.addNode n t v p :: addForestOps base (base + 1) ks
+def addForestOps (n : Id) (base : Nat) : List Node → List Op
+  | [] => []
+  | k :: ks => addTreeOps n base k ++ addForestOps n (base + k.size) ks
+end
+
+/-- `doc.AddNode(NewNode(t, v, p, children…))` -/
+def docAddTreeOps (base : Nat) : Node → List Op
+  | .mk t v p ks => Op.docAddNode t v p :: addForestOps base (base + 1) ks
+
+/-- `doc.AddIndividual(ptr, children…)` -/
+def addIndividualWithOps (base : Nat) (p : Str) (ks : List Node) : List Op :=
+  Op.addIndividual p :: addForestOps base (base + 1) ks
+
+/-- a history that stands for ONE call: if any step is rejected (a tag `NewNode` panics for, a
+    receiver that is not there, a pointer an individual already uses) the call did not happen -/
+def runAtomic (fl : Flags) (s : St) (ops : List Op) : St × Obs :=
+  if (run fl s ops).2.contains Obs.bad then (s, .bad) else ((run fl s ops).1, .none)
+
 /-- renaming of the nodes a view mentions -/
 def View.map (φ : Id → Id) : View → View
   | .nodesWithTag n t => .nodesWithTag (φ n) t
@@ -866,6 +939,9 @@ def View.map (φ : Id → Id) : View → View
   | .husband f => .husband (φ f)
   | .wife f => .wife (φ f)
   | .famChildren f => .famChildren (φ f)
+  | .names i => .names (φ i)
+  | .eventsOf i t => .eventsOf (φ i) t
+  | .allEvents i => .allEvents (φ i)
 
 def Obs.map (φ : Id → Id) : Obs → Obs
   | .none => .none
@@ -879,5 +955,6 @@ def View.subject : View → Option Id
   | .individuals | .families | .byPointer _ => none
   | .indFamilies i | .spouses i | .parents i | .children i => some i
   | .husband f | .wife f | .famChildren f => some f
+  | .names i | .eventsOf i _ | .allEvents i => some i
 
 end Gedcom.Cache
